@@ -18,7 +18,7 @@ TIERS = {
     # optimised builds are expensive per definition, unoptimised ones cheap: the dev arm sweeps many more
     # definitions (one capacity each), the release / hooks / Miri arms the corpus plus a smaller swarm
     "quick": dict(swarm=12, caps=2, swarm_dev=150, caps_dev=1, runs=40000, miri=96, miri_defs=8),
-    "thorough": dict(swarm=85, caps=2, swarm_dev=600, caps_dev=1, runs=3000000, miri=1600, miri_defs=24),
+    "thorough": dict(swarm=85, caps=2, swarm_dev=400, caps_dev=1, runs=2000000, miri=1200, miri_defs=24),
 }
 
 LEVEL = {"C04": "exploration", "C05": "exploration", "C06": "exploration", "C07": "exploration", "C15": "fault_enumeration", "C16": "fault_enumeration"}
